@@ -19,7 +19,8 @@ TARGET_OF = {'coop': ('t_loop', {'n': 100000, 'd': 0.01}), 'swallow': ('t_swallo
              'notrun': ('t_return', {'v': 1}), 'short': ('t_loop', {'n': 10, 'd': 0.01}),
              'linger': ('t_linger', {'d': 1000.0})}
 PTARGET_OF = {'coop': ('p_slow', {'d': 0.05}), 'swallow': ('p_swallow', {}), 'sleep': ('p_slow', {'d': 1000.0}),
-              'finished': ('p_square', {}), 'notrun': ('p_square', {}), 'short': ('p_slow', {'d': 0.02})}
+              'finished': ('p_square', {}), 'notrun': ('p_square', {}), 'short': ('p_slow', {'d': 0.02}),
+              'unb-swallow': ('p_poison', {'origin_only': [1]})}
 
 
 def gen_case(ctx, rng, i, tag='random'):
@@ -30,7 +31,9 @@ def gen_case(ctx, rng, i, tag='random'):
     if thread_kind and beh in ('gilhold', 'sigstop', 'linger'):
         beh = rng.choice(['coop', 'swallow', 'sleep'])
     if lib.is_persistent(kind) and beh in ('gilhold', 'sigstop', 'linger'):
-        beh = rng.choice(['coop', 'swallow', 'sleep', 'finished'])
+        # ('unb-swallow': the worker has returned a value its parent cannot rebuild - for a remote worker the result stream is given
+        #  up and the data connection reset from the parent side - and is now stuck in the next input)
+        beh = rng.choice(['coop', 'swallow', 'sleep', 'finished', 'unb-swallow'])
     pol, knobs = draw_env(rng, tcp=lib.is_remote(kind), adversarial_ok=True)
     ops = []
     for _ in range(rng.randrange(1, 5)):
@@ -90,7 +93,13 @@ class Run:
             self.info['ctor'] = [st[0], lib.safe_repr(st[1])]
             return
         w = st[1]
-        if lib.is_persistent(kind) and beh not in ('notrun',):
+        if beh == 'unb-swallow':
+            try:
+                w.enqueue(1)
+                w.enqueue({'$swallow': True})
+            except Exception:
+                pass
+        elif lib.is_persistent(kind) and beh not in ('notrun',):
             for x in range(c['items'] if beh != 'finished' else 1):
                 try:
                     w.enqueue(x + 1)
